@@ -6,7 +6,7 @@ from chx.ob import BOOL, CP, PR, R, U, known_active, ob
 from harness.formats import FORMAT_FUNCS, FORMATS, hop
 from harness.shims import ADHOC_SHIMS_DOC
 
-ASSUMPTIONS = ["AST level hops (see C02); the SEQUENCE of formats is a tuple of solver integers, so the solver enumerates every sequence of the stated length",
+ASSUMPTIONS = ["AST level hops (see C02); the SEQUENCE of formats is a tuple of solver integers, so the solver enumerates every sequence of the stated length; every argument is made concrete by a fork (chx.shim.fix_int) and the hops then run untraced on the real emitters and parsers",
                "compared: parameter names, order, types, defaults (the property does not speak of descriptions for chains); an absent default and a None default are the same (None/absent convention named in the property's anchors)"]
 ALLF = sorted({f for fs in FORMAT_FUNCS.values() for f in fs})
 
@@ -16,6 +16,9 @@ def S(cs):
     for c in cs:
         s = s + chr(c)
     return s
+
+
+LONG_TEXT = "By continuing you confirm that you have read and accept the current terms of use before any upload"
 
 
 def fmt_of(h):
@@ -45,6 +48,9 @@ def shape(kind, i, c0, c1):
     elif kind == 7:
         ps = [("a", {"typ": "int", "doc": "first arg", "default": i}), ("b", {"typ": "float", "doc": "second arg", "default": -0.5}),
               ("c", {"typ": "bool", "doc": "third arg", "default": False}), ("d", {"typ": "str", "doc": "fourth arg", "default": ""})]
+    elif kind == 9:
+        ps = [("a", {"typ": "str", "doc": "first arg", "default": LONG_TEXT if i > 0 else LONG_TEXT[:40 + 8 * (i + 3)]}), ("b", {"typ": "complex", "doc": "second arg", "default": 1j}),
+              ("c", {"typ": "int", "doc": "third arg with a description that is itself long enough to be wrapped by the emitter at one hundred columns", "default": i})]
     elif kind == 8:
         ps = [("a", {"typ": "Optional[Literal['x', 'y']]", "doc": "first arg", "default": None}), ("b", {"typ": "Optional[int]", "doc": "second arg", "default": i})]
     else:
@@ -53,12 +59,12 @@ def shape(kind, i, c0, c1):
     return {"name": "C", "doc": "Header line.", "type": "static", "params": OrderedDict(ps), "returns": None}
 
 
-def chain(hs, ir0, edd=False, keep=False):
+def chain(hs, ir0, edd=False, keep=False, wrap=False):
     ir = ir0
     for n, h in enumerate(hs):
         f = fmt_of(h)
         try:
-            ir = hop(f, ir, emit_default_doc=edd, keep_prose=keep)
+            ir = hop(f, ir, emit_default_doc=edd, keep_prose=keep, word_wrap=wrap)
         except Exception as e:
             return "hop %d (%s) raised %s: %s" % (n + 1, f, type(e).__name__, e)
         d = ir_equiv(ir0, ir, types=True, defaults=True, docs=False, header=False, returns=False, none_is_absent=True)
@@ -67,9 +73,13 @@ def chain(hs, ir0, edd=False, keep=False):
     return ""
 
 
-def _chain(k, kind, edd=False, first=None, keep=False):
+def _chain(k, kind, edd=False, first=None, keep=False, wrap=False):
     def body(i, c0, c1, *hs):
-        return chain(hs if first is None else (first,) + tuple(hs), shape(kind, i, c0, c1), edd, keep)
+        from chx.shim import fix_int, untraced
+
+        i, c0, c1 = fix_int(i, -3, 3), fix_int(c0, 97, 97), fix_int(c1, 97, 97)
+        hs = tuple(fix_int(h, 0, len(FORMATS) - 1) for h in hs)
+        return untraced(lambda: chain(hs if first is None else (first,) + tuple(hs), shape(kind, i, c0, c1), edd, keep, wrap))
 
     body.__name__ = "chain_k%d_s%d" % (k, kind)
     return body
@@ -78,27 +88,43 @@ def _chain(k, kind, edd=False, first=None, keep=False):
 KINDS = {0: "a:int=i (i in -3..3), b:str='x y'", 1: "a:float=0.5, b:bool", 2: "a:Optional[int]=None, b:int=i", 3: "a:Literal['np','tf']='np', b:int=i",
          4: "a:Optional[bool]=True/False, b:Optional[float]=0.0/2.5, c:Optional[str]='t'/'s'", 5: "a:float=1e20, b:float=-2.5e-07, c:int=10**18+i",
          6: "a:Literal['x','y','z']='y'/'z', b:Optional[str]=None, c:str='a-b_c'", 7: "a:int=i, b:float=-0.5, c:bool=False, d:str=''",
-         8: "a:Optional[Literal['x','y']]=None, b:Optional[int]=i"}
+         8: "a:Optional[Literal['x','y']]=None, b:Optional[int]=i",
+         }
+KINDS_WRAP = dict(KINDS)
+KINDS_WRAP[9] = "a:str=<sentence of 40..99 characters>, b:complex=1j, c:int=i with a description longer than the wrap column"
 EDD_DOC = "the code emitters also write the default into the prose (emit_default_doc=True) on every hop"
-for _k, _tier, _T in ((2, "quick", 400), (3, "thorough", 3000)):
+for _k, _tier, _T in ((2, "quick", 400), (3, "quick", 900)):
     for _kind in KINDS:
         _args = dict({"i": R(-3, 3), "c0": R(97, 97), "c1": R(97, 97)}, **{"h%d" % j: R(0, len(FORMATS) - 1) for j in range(_k)})
         ob("C03", "chain.k%d.s%d" % (_k, _kind), _args, tier=_tier, T=_T, tpath=120, funcs=ALLF, assumes=[ADHOC_SHIMS_DOC],
            bound="EVERY sequence of %d hops over %r (%d sequences, solver-enumerated) starting from %s" % (_k, FORMATS, len(FORMATS) ** _k, KINDS[_kind]))(_chain(_k, _kind))
-        if _k == 2:
-            ob("C03", "chain.k2.edd.s%d" % _kind, _args, tier="thorough", T=_T, tpath=120, funcs=ALLF, assumes=[ADHOC_SHIMS_DOC, EDD_DOC],
-               bound="EVERY sequence of 2 hops over %r starting from %s; %s" % (FORMATS, KINDS[_kind], EDD_DOC))(_chain(2, _kind, True))
+        ob("C03", "chain.k%d.edd.s%d" % (_k, _kind), _args, tier="quick" if _k == 2 else "thorough", T=_T, tpath=120, funcs=ALLF, assumes=[ADHOC_SHIMS_DOC, EDD_DOC],
+           bound="EVERY sequence of %d hops over %r starting from %s; %s" % (_k, FORMATS, KINDS[_kind], EDD_DOC))(_chain(_k, _kind, True))
 KEEP_DOC = "the docstring hop parses with the parser's own default emit_default_doc=True: the 'Defaults to' prose stays in the description and the default is read from it"
 for _kind in KINDS:
     _args = dict({"i": R(-3, 3), "c0": R(97, 97), "c1": R(97, 97)}, **{"h%d" % j: R(0, len(FORMATS) - 1) for j in range(2)})
-    ob("C03", "chain.k2.keep.s%d" % _kind, _args, pre="h0 == 4 or h1 == 4", tier="quick" if _kind in (2, 5) else "thorough", T=1200, tpath=120, funcs=ALLF, assumes=[ADHOC_SHIMS_DOC, KEEP_DOC],
+    ob("C03", "chain.k2.keep.s%d" % _kind, _args, pre="h0 == 4 or h1 == 4", tier="quick", T=1200, tpath=120, funcs=ALLF, assumes=[ADHOC_SHIMS_DOC, KEEP_DOC],
        bound="EVERY sequence of 2 hops over %r that visits the docstring format, starting from %s; %s" % (FORMATS, KINDS[_kind], KEEP_DOC))(_chain(2, _kind, False, None, True))
-# length 4: sharded by the first hop (5 shards x 125 sequences), thorough only
-for _kind in (0, 4, 5):
+KINDS_ALL = KINDS
+WRAP_DOC = "word_wrap=True on every hop (the emitters' own default): descriptions and 'Defaults to' prose are wrapped at 100 columns"
+for _kind in KINDS_WRAP:
+    for _keep in (False, True):
+        if _kind == 9 and not _keep:
+            continue  # long str / complex defaults with the prose stripped: known findings F48/F49 (witness obligation under C01)
+        _args = dict({"i": R(-3, 3), "c0": R(97, 97), "c1": R(97, 97)}, **{"h%d" % j: R(0, len(FORMATS) - 1) for j in range(2)})
+        ob("C03", "chain.k2.wrap%s.s%d" % (".keep" if _keep else "", _kind), _args, tier="quick" if _kind in (0, 5, 9) else "thorough", T=900, tpath=120, funcs=ALLF,
+           assumes=[ADHOC_SHIMS_DOC, WRAP_DOC] + ([KEEP_DOC] if _keep else []),
+           bound="EVERY sequence of 2 hops over %r starting from %s; %s%s" % (FORMATS, KINDS_WRAP[_kind], WRAP_DOC, ("; " + KEEP_DOC) if _keep else ""))(_chain(2, _kind, False, None, _keep, True))
+# length 4 (every shape) and 5: sharded by the first hop (5 shards x 125 / 625 sequences)
+for _kind in KINDS:
     for _first in range(len(FORMATS)):
         _args = dict({"i": R(-1, 1), "c0": R(97, 97), "c1": R(97, 97)}, **{"h%d" % j: R(0, len(FORMATS) - 1) for j in range(3)})
-        ob("C03", "chain.k4.s%d.first_%s" % (_kind, FORMATS[_first]), _args, tier="thorough", T=4000, tpath=120, funcs=ALLF, assumes=[ADHOC_SHIMS_DOC],
+        ob("C03", "chain.k4.s%d.first_%s" % (_kind, FORMATS[_first]), _args, tier="quick" if _kind in (0, 4, 5) and _first in (2, 4) else "thorough", T=1500, tpath=120, funcs=ALLF,
+           assumes=[ADHOC_SHIMS_DOC],
            bound="EVERY sequence of 4 hops starting with %s (125 sequences, solver-enumerated) from %s" % (FORMATS[_first], KINDS[_kind]))(_chain(4, _kind, False, _first))
+        _args5 = dict({"i": R(0, 1), "c0": R(97, 97), "c1": R(97, 97)}, **{"h%d" % j: R(0, len(FORMATS) - 1) for j in range(4)})
+        ob("C03", "chain.k5.s%d.first_%s" % (_kind, FORMATS[_first]), _args5, tier="thorough", T=6000, tpath=120, funcs=ALLF, assumes=[ADHOC_SHIMS_DOC],
+           bound="EVERY sequence of 5 hops starting with %s (625 sequences, solver-enumerated) from %s" % (FORMATS[_first], KINDS[_kind]))(_chain(5, _kind, False, _first))
 
 
 # a parameter WITHOUT default: function shows it as '=None' and the next parser widens the type (finding F14) ----------------
